@@ -2,7 +2,7 @@ import Mathlib.Tactic.Ring
 import Mathlib.Tactic.Linarith
 import Mathlib.Tactic.FieldSimp
 import Mathlib.Tactic.Push
-import CardVerif.Model.Basic
+import CardModel.Model.Basic
 /-!
 # Generic list lemmas used by the side-pot proofs (C02)
 
